@@ -271,6 +271,22 @@ def shard(shard, nshards, tier, seed, scratch):
     drv = jsdriver.Driver()
     try:
         failures = run_hypothesis(strategy(), lambda c: check_case(c, drv, stats), max(1, total // nshards), seed, shrink_budget=250 if tier == 'quick' else 1500)
+        if shard == 1 and not failures:
+            from .. import largecases
+            for which in ('select', 'order', 'join', 'update'):
+                for case in largecases.large_cases(which):
+                    if not qgen.renderable(case['q'], 'js'):
+                        continue
+                    try:
+                        check_case(case, drv, None)
+                        stats.bump('large-case')
+                        stats.evaluations += 1
+                    except Violation as v:
+                        d = dict(v.detail or {})
+                        for k in ('A', 'B', 'got', 'expected'):
+                            d.pop(k, None)
+                        failures.append({'clause': 'large-' + v.clause, 'detail': d, 'case': {'kind': 'large', 'which': which}})
+                        break
     finally:
         drv.close()
     return {'stats': stats.export(), 'failures': failures}
@@ -355,6 +371,16 @@ def shard_js_values(shard, nshards, tier, seed, scratch):
 
 
 def replay(case, clause=None):
+    if case.get('kind') == 'large':
+        from .. import largecases
+        drv = jsdriver.Driver()
+        try:
+            for c in largecases.large_cases(case['which']):
+                if qgen.renderable(c['q'], 'js'):
+                    check_case(c, drv, None)
+        finally:
+            drv.close()
+        return
     if case.get('kind') == 'js-values':
         drv = jsdriver.Driver()
         try:
